@@ -54,9 +54,11 @@ impl Scenario for ProgramLockstep {
     }
 
     fn generate(&self, rng: &mut Rng, _index: u64, thorough: bool, case: &mut Case) {
-        let _p = generate_program(rng, case, thorough);
-        if rng.chance(1, 5) {
-            case.set("arena", rng.pick(&[0x1000i64, 0x2000, 0x4000, 0x10000]));
+        let small_arena = rng.chance(1, 3);
+        let far = small_arena && rng.chance(2, 3);
+        let _p = crate::proggen::generate_program_biased(rng, case, thorough, far);
+        if small_arena {
+            case.set("arena", rng.pick(&[0x1000i64, 0x1000, 0x2000, 0x2000, 0x4000, 0x10000]));
         }
         let total = if thorough { rng.range(200, 6000) } else { rng.range(100, 2000) };
         let mut left = total;
